@@ -1,12 +1,213 @@
-use crate::util::Report;
-use crate::Ctx;
-use serde_json::Value;
+//! C09 — the code is GF(256)-linear and acts independently on every byte column.
 
-pub fn run(_ctx: &Ctx, _rep: &mut Report) {
-    eprintln!("not implemented yet");
-    std::process::exit(2);
+use crate::codec::{build_block, build_from, block_cfg, data_class_from, make_data, repair_esi};
+use crate::reference::gf_mul;
+use crate::util::{fnv_u64s, run_sharded, Report, SplitMix, Stats};
+use crate::Ctx;
+use proptest::prelude::*;
+use raptorq::{EncodingPacket, SourceBlockDecoder};
+use serde_json::{json, Value};
+
+#[derive(Debug, Clone)]
+pub struct Case {
+    k: u32,
+    t: usize,
+    class_a: u64,
+    class_b: u64,
+    scalar: u8,
+    build: u64,
+    seed: u64,
 }
 
-pub fn replay(_sub: &str, _case: &Value) -> Result<(), String> {
-    Err("not implemented".into())
+fn t_strategy() -> impl Strategy<Value = usize> {
+    prop_oneof![
+        6 => 1usize..=136,
+        1 => 191usize..=193,
+        1 => 255usize..=257,
+        1 => Just(1280usize),
+        1 => 64usize..=72,
+    ]
+}
+
+fn strategy(kmax: u32) -> impl Strategy<Value = Case> {
+    (
+        prop_oneof![4 => 1u32..=40, 2 => 1u32..=kmax, 1 => 245u32..=260],
+        t_strategy(),
+        0u64..5,
+        0u64..5,
+        prop_oneof![3 => any::<u8>(), 1 => Just(0u8), 1 => Just(1u8), 1 => Just(2u8), 1 => Just(0x1Du8), 1 => Just(0x80u8), 1 => Just(0xFFu8)],
+        0u64..6,
+        any::<u64>(),
+    )
+        .prop_map(move |(k, t, class_a, class_b, scalar, build, seed)| {
+            // bound the work: large K only with moderate T
+            let t = if k > 400 { t.min(136) } else { t };
+            Case { k: k.min(kmax.max(260)), t, class_a, class_b, scalar, build, seed }
+        })
+}
+
+fn xor(a: &[u8], b: &[u8]) -> Vec<u8> {
+    a.iter().zip(b).map(|(x, y)| x ^ y).collect()
+}
+
+fn scale(c: u8, a: &[u8]) -> Vec<u8> {
+    a.iter().map(|&x| gf_mul(c, x)).collect()
+}
+
+fn packets(enc: &raptorq::SourceBlockEncoder, k: u32, esis: &[u32]) -> Vec<EncodingPacket> {
+    let mut v = enc.source_packets();
+    for &e in esis {
+        v.extend(enc.repair_packets(e - k, 1));
+    }
+    v
+}
+
+fn check(c: &Case, st: &mut Stats) -> Result<(), String> {
+    let (k, t) = (c.k, c.t);
+    let len = k as usize * t;
+    let a = make_data(data_class_from(c.class_a), c.seed, len);
+    let b = make_data(data_class_from(c.class_b), c.seed ^ 0xB, len);
+    let cfg = block_cfg(k as usize, t);
+    let how = build_from(c.build);
+    let mut rng = SplitMix::new(c.seed ^ 0xE51);
+    let mut esis: Vec<u32> = (k..k + 6).collect();
+    for _ in 0..8 {
+        esis.push(repair_esi(rng.next_u64(), rng.next_u64(), k));
+    }
+    esis.push((1 << 24) - 1);
+    esis.sort_unstable();
+    esis.dedup();
+
+    let both_paths = t > 64 && t % 64 != 0;
+    st.class_if(both_paths, "T>64 and T mod 64 != 0 (vector body and tail)");
+    st.class_if(t % 8 != 0, "T mod 8 != 0");
+    st.class_if(c.scalar > 1, "scalar not in {0,1}");
+    st.class(&format!("build:{how:?}"));
+    if both_paths && c.scalar > 1 {
+        st.nt(fnv_u64s(&[k as u64, t as u64, c.build]));
+    }
+    st.sample(|| json!({"K": k, "T": t, "scalar": c.scalar, "build": format!("{how:?}"), "data": [format!("{:?}", data_class_from(c.class_a)), format!("{:?}", data_class_from(c.class_b))], "esis": &esis[..esis.len().min(6)]}));
+
+    let ea = build_block(how, 0, &cfg, &a);
+    let eb = build_block(how, 0, &cfg, &b);
+    let eab = build_block(how, 0, &cfg, &xor(&a, &b));
+    let eca = build_block(how, 0, &cfg, &scale(c.scalar, &a));
+    let (pa, pb, pab, pca) = (packets(&ea, k, &esis), packets(&eb, k, &esis), packets(&eab, k, &esis), packets(&eca, k, &esis));
+    for i in 0..pa.len() {
+        st.eval();
+        let id = pa[i].payload_id();
+        if pab[i].payload_id() != id || pca[i].payload_id() != id {
+            return Err("payload IDs depend on the data".into());
+        }
+        if pab[i].data() != &xor(pa[i].data(), pb[i].data())[..] {
+            return Err(format!(
+                "additivity: K={k} T={t} {how:?} ESI {}: pkt(A xor B) != pkt(A) xor pkt(B)",
+                id.encoding_symbol_id()
+            ));
+        }
+        if pca[i].data() != &scale(c.scalar, pa[i].data())[..] {
+            return Err(format!(
+                "homogeneity: K={k} T={t} {how:?} ESI {} scalar {}: pkt(c*A) != c*pkt(A)",
+                id.encoding_symbol_id(),
+                c.scalar
+            ));
+        }
+    }
+    // byte-column independence: byte j of every packet at symbol size T equals the one-byte
+    // packet obtained by encoding byte column j alone (a few columns per case, always the last)
+    let cfg1 = block_cfg(k as usize, 1);
+    let mut cols: Vec<usize> = vec![0, t - 1, t / 2];
+    for _ in 0..2 {
+        cols.push(rng.below(t as u64) as usize);
+    }
+    for off in [63usize, 64, 65, 31, 32, 8, 7] {
+        if t > off + 1 {
+            cols.push(t - 1 - off);
+        }
+    }
+    cols.sort_unstable();
+    cols.dedup();
+    let cols: Vec<usize> = if k > 400 { cols.into_iter().take(4).collect() } else { cols };
+    let mut col_packets: Vec<(usize, Vec<EncodingPacket>)> = vec![];
+    for &j in &cols {
+        let col: Vec<u8> = (0..k as usize).map(|s| a[s * t + j]).collect();
+        let e1 = build_block(how, 0, &cfg1, &col);
+        let p1 = packets(&e1, k, &esis);
+        for i in 0..pa.len() {
+            st.eval();
+            if p1[i].data().len() != 1 || p1[i].data()[0] != pa[i].data()[j] {
+                return Err(format!(
+                    "column independence: K={k} T={t} {how:?} ESI {}: byte {j} of the packet differs from the packet of byte column {j} alone",
+                    pa[i].payload_id().encoding_symbol_id()
+                ));
+            }
+        }
+        col_packets.push((j, p1));
+    }
+    // decoding side: same ESI set => same outcome for T = 1 and T = T, bytes column-wise equal
+    let mut order: Vec<usize> = (0..pa.len()).collect();
+    rng.shuffle(&mut order);
+    let drop = 1 + rng.below(3.min(k as u64)) as usize;
+    // remove `drop` source packets, keep everything else (K + 15 - drop symbols)
+    let erased: Vec<usize> = (0..k as usize).filter(|i| order.iter().position(|o| o == i).unwrap() < drop).collect();
+    let keep: Vec<usize> = (0..pa.len()).filter(|i| !erased.contains(i)).collect();
+    // use only K + overhead of them so that some sets are undecodable
+    let overhead = rng.below(3) as usize;
+    let take = (k as usize + overhead).min(keep.len());
+    let chosen: Vec<usize> = {
+        let mut kk = keep.clone();
+        rng.shuffle(&mut kk);
+        kk.truncate(take);
+        kk
+    };
+    let mut dt = SourceBlockDecoder::new(0, &cfg, len as u64);
+    let rt = dt.decode(chosen.iter().map(|&i| pa[i].clone()));
+    if let Some(ref out) = rt {
+        if out != &a {
+            return Err(format!("decoding at T={t} returned wrong bytes"));
+        }
+    }
+    for (j, p1) in col_packets.iter().take(2) {
+        let mut d1 = SourceBlockDecoder::new(0, &cfg1, k as u64);
+        let r1 = d1.decode(chosen.iter().map(|&i| p1[i].clone()));
+        if r1.is_some() != rt.is_some() {
+            return Err(format!(
+                "decoding outcome depends on the symbol size: K={k}, same ESI set, T=1 gives {}, T={t} gives {}",
+                if r1.is_some() { "Some" } else { "None" },
+                if rt.is_some() { "Some" } else { "None" }
+            ));
+        }
+        if let (Some(o1), Some(ot)) = (&r1, &rt) {
+            let col: Vec<u8> = (0..k as usize).map(|s| ot[s * t + j]).collect();
+            if o1 != &col {
+                return Err(format!("decoded byte column {j} at T={t} differs from decoding that column alone"));
+            }
+        }
+    }
+    st.class(if rt.is_some() { "decode Some" } else { "decode None" });
+    Ok(())
+}
+
+fn to_json(c: &Case) -> Value {
+    json!({"k": c.k, "t": c.t, "class_a": c.class_a, "class_b": c.class_b, "scalar": c.scalar, "build": c.build, "seed": c.seed})
+}
+
+fn from_json(v: &Value) -> Case {
+    let g = |k: &str| v[k].as_u64().unwrap();
+    Case { k: g("k") as u32, t: g("t") as usize, class_a: g("class_a"), class_b: g("class_b"), scalar: g("scalar") as u8, build: g("build"), seed: g("seed") }
+}
+
+fn signature(_: &Case, msg: &str) -> String {
+    format!("linear:{}", msg.split(':').next().unwrap_or("").split(' ').next().unwrap_or(""))
+}
+
+pub fn run(ctx: &Ctx, rep: &mut Report) {
+    rep.rule = "generated (K in 1..=40 weighted, up to 2000 / around the dense-sparse switch 245..260; T over 1..=136, 191..193, 255..257, 1280 so that every residue modulo 8/16/32/64 occurs; data pairs A,B from {random, zero, 0xFF, one-hot, position-coded}; scalar c over all 256 weighted to 0,1,2,0x1D,0x80,0xFF; construction in {new, with_encoding_plan, unplanned dense/sparse, plan from dense/sparse}); for every source packet and ~15 repair packets (near, uniform, far ESIs, 2^24-1): pkt(A^B) = pkt(A)^pkt(B), pkt(c*A) = c*pkt(A) with c* from the polynomial multiplier, byte j of pkt_T(A) = pkt_1(column j of A); decoding the same ESI set at T and at 1 gives the same Some/None and column-wise equal bytes. Non-trivial = T > 64 with T mod 64 != 0 (vector body and scalar tail both run) and c not in {0,1}; distinct by (K,T,construction).".into();
+    let kmax = ctx.tier.pick(600u32, 2000);
+    let n = ctx.tier.pick(3_000u64, 100_000);
+    rep.absorb("linearity", run_sharded("C09", "linearity", ctx.seed, n, 32, move || strategy(kmax), check, to_json, signature));
+}
+
+pub fn replay(_sub: &str, case: &Value) -> Result<(), String> {
+    check(&from_json(case), &mut Stats::new())
 }
